@@ -1248,6 +1248,38 @@ def pre_dispatch_stage(ctx, quick, prop):
              "-(-n_jobs)", "n_jobs%2+2", "3*n_jobs//2", "n_jobs/0", "2.6*n_jobs", "0.29*100"]
     exprs += [gen(rng.choice([1, 2, 2, 3])) for _ in range(1500 if quick else 15000)]
     cases = [(e, n) for e in exprs for n in ((2, 5) if quick else (1, 2, 3, 5))]
+
+    def magnitude_ok(text, limit=3000.0):
+        """structural bound on the size of every intermediate value (log2 of its absolute value <= limit): towers of
+        powers such as (8**8)**(8**8) would keep BOTH evaluators busy for minutes; they say nothing about pre_dispatch"""
+        import math
+
+        def lg(node):   # upper bound of log2(max(1, |value|)); None = not a number we can bound (division by zero ...)
+            if isinstance(node, pyast.Constant):
+                return math.log2(max(1.0, abs(float(node.value))))
+            if isinstance(node, pyast.UnaryOp):
+                return lg(node.operand)
+            if isinstance(node, pyast.BinOp):
+                a, b = lg(node.left), lg(node.right)
+                if isinstance(node.op, (pyast.Add, pyast.Sub)):
+                    r = max(a, b) + 1
+                elif isinstance(node.op, pyast.Mult):
+                    r = a + b
+                elif isinstance(node.op, pyast.Pow):
+                    # |x| ** |y| with |y| <= 2**b; a tiny base raised to a NEGATIVE power is large too: bound 1/x by 2**8
+                    r = max(a, 8.0) * (2.0 ** min(b, 64.0))
+                else:            # / // %: the result is not larger than the dividend times 2**8 (smallest divisor 1/256)
+                    r = a + 8.0
+                if r > limit:
+                    raise OverflowError
+                return r
+            raise OverflowError
+        try:
+            lg(pyast.parse(text, mode="eval").body)
+            return True
+        except (OverflowError, ValueError, SyntaxError):
+            return False
+    cases = [(e, n) for e, n in cases if magnitude_ok(e.replace("n_jobs", str(n)))]
     strings = [e.replace("n_jobs", str(n)) for e, n in cases]
     rc, out, err = common.run_impl("c09_expr_impl.py", input_text=json.dumps(strings), timeout=600)
     try:
